@@ -1351,9 +1351,6 @@ impl<'a> Parser<'a> {
       return self.error_current(&format!("Expected '(' after {} name.", self.fun_kind));
     }
 
-    let loop_depth = self.loop_depth;
-    self.loop_depth = 0;
-
     // parse function parameters
     let call_params = self.call_params(TokenKind::RightParen)?;
     let call_sig = self.call_signature(call_params, type_params)?;
@@ -1361,6 +1358,11 @@ impl<'a> Parser<'a> {
     if !self.match_kind(TokenKind::LeftBrace)? {
       return self.error_current(&format!("Expected '{{' after {} signature.", self.fun_kind));
     }
+
+    // only the body is outside of any enclosing loop. Nothing between here and
+    // the restore below returns early so the enclosing loop's depth survives errors
+    let loop_depth = self.loop_depth;
+    self.loop_depth = 0;
 
     let fun = self.block(block_return).map(|body| {
       Fun::new(
